@@ -104,6 +104,8 @@ func ghosthavoc(name string) {}
 func visited(k any) bool { return true }
 func deref[T any](p *T) T { return *p }
 func lockOf(x any) any { return x }
+func lower(s string) string { return s }
+func joinHostPort(h, p string) string { return h }
 func modtarget(x any) bool { return true }
 func elems(x any) any { return x }
 func mapof(x any) any { return x }
@@ -489,6 +491,19 @@ func (w *World) buildPkg(p *Pkg) error {
 			emit(c, all)
 		}
 		allLoc := append(append([]localVar{}, all...), locals...)
+		for _, rn := range []string{"rangeindex", "rangeindex_2", "rangeindex_3"} {
+			if !skip[rn] {
+				clash := false
+				for _, lv := range allLoc {
+					if lv.Name == rn {
+						clash = true
+					}
+				}
+				if !clash {
+					allLoc = append(allLoc, localVar{rn, types.Typ[types.Int]})
+				}
+			}
+		}
 		ords := []int{}
 		for o := range fc.Loops {
 			ords = append(ords, o)
